@@ -29,6 +29,16 @@ def run(rep, tier):
     jobs = [l1.Job(n, ct, "h_" + n, includes=INC, defines=D, unwind=nxg + 2, complete=False, bound_text="nx<=%d" % nxg, timeout=600, slice_formula=True,
                    sat_solver="cadical", function_label=lab, where="src/SQuIDS.cpp") for n, lab in JOBS.items()]
     rep.bounded.append(dict(function="GetExpectationValueD / GetIntermediateState / GetExpectationValue", bound="nx<=%d" % nxg, what="bracketing, range error, hook arguments, evaluation order"))
+    # the same harnesses, loop free, for longer grids: the quantified grid preconditions are instantiated at the indices the call consults
+    # (contracts/squids_l1.c sq_grid_instances); no loop is unwound (unwind 2 + unwinding assertions prove there is none).  NXU sizes the array objects only,
+    # but CBMC's cost grows linearly with it (35 s at 16, 141 s at 64, time-out at 1024), so these jobs stay a BOUNDED stand-in with a larger bound.
+    NXU = 32 if tier == "quick" else 64
+    DU = ["NXB=%d" % NXU, "NRB=2", "NSB=1", "NXG=%d" % NXU, "NXU=%d" % NXU]
+    jobs += [l1.Job(n + "_anynx", ct, "h_" + n, includes=INC, defines=DU, unwind=2, complete=False, bound_text="nx<=%d (array object size; no loop unwound)" % NXU, timeout=900, slice_formula=True,
+                    sat_solver="cadical", function_label=lab + " [loop-free harness]", where="src/SQuIDS.cpp") for n, lab in JOBS.items()]
+    rep.bounded.append(dict(function="GetExpectationValueD / GetIntermediateState / GetExpectationValue [loop-free harness]", bound="nx<=%d (object size)" % NXU, what="as above, longer grids"))
+    rep.assume("loop-free-harness jobs: `grid strictly increasing and finite` and `state[e].rho is node e's block` are instantiated at the indices 0, 1, k-1, k, nx-1 "
+               "that a call bracketing with lower_bound can consult, instead of being established for all nodes (array objects sized for nx<=%d)" % NXU)
     for res in core.pmap(lambda j: l1.run_job(j, bdir), jobs):
         for p in l1.record(rep, res, "C05"):
             oid = "C05.%s.%s" % (res.job.name, p.name)
